@@ -1817,15 +1817,18 @@ class PGPKey(Armorable, ParentRef, PGPObject):
             yield self
             return
 
+        # a subkey that is not passphrase-protected has nothing to decrypt, and nothing that may be wiped afterwards
+        protected = [sk for sk in itertools.chain([self], self.subkeys.values()) if sk.is_protected]
+
         try:
-            for sk in itertools.chain([self], self.subkeys.values()):
+            for sk in protected:
                 sk._key.unprotect(passphrase)
             del passphrase
             yield self
 
         finally:
             # clean up here by deleting the previously decrypted secret key material
-            for sk in itertools.chain([self], self.subkeys.values()):
+            for sk in protected:
                 sk._key.keymaterial.clear()
 
     def add_uid(self, uid, selfsign=True, **prefs):
